@@ -129,6 +129,10 @@ pub fn string_pairs(r: &mut StdRng, n_random: usize) -> Vec<(String, String)> {
         ("ab?".into(), "ab>".into()),
         ("https://keys.example.com/v4/k?kid=7".into(), "~~~>>>???".into()),
         ("k\u{bf}".into(), "o\u{e9}~".into()),
+        // JSON footers: nested, deep, braces inside strings, not quite JSON
+        ("{\"kid\":\"k\",\"rotation\":{\"previous\":[\"a\",\"b\"]}}".into(), "{\"kid\":\"k\",\"rotation\":{\"previous\":[\"a\",\"c\"]}}".into()),
+        ("{\"kid\":\"{{tenant}}-{{region}}\"}".into(), "{[[".into()),
+        ("[[[[[[[[[[[[[[[[[[[[[[[[[[[[[[[[[[[[[[[[1]]]]]]]]]]]]]]]]]]]]]]]]]]]]]]]]]]]]]]]]".into(), "{\"a\":{\"a\":{\"a\":{\"a\":{\"a\":{\"a\":1}}}}}}".into()),
     ];
     for _ in 0..n_random {
         let la = r.gen_range(1..40);
